@@ -311,7 +311,11 @@ func (s *Server) handleDiscovery(clientMAC net.HardwareAddr, data []byte) {
 		return
 	}
 
-	payload := data[6 : 6+hdr.Length]
+	if int(hdr.Length) > len(data)-6 {
+		s.logger.Debug("PPPoE length exceeds frame", zap.Uint16("length", hdr.Length))
+		return
+	}
+	payload := data[6 : 6+int(hdr.Length)]
 	tags, err := ParseTags(payload)
 	if err != nil {
 		s.logger.Debug("Invalid PPPoE tags", zap.Error(err))
@@ -470,6 +474,11 @@ func (s *Server) handleSession(clientMAC net.HardwareAddr, data []byte) {
 
 	hdr, err := ParsePPPoEHeader(data)
 	if err != nil {
+		return
+	}
+
+	// The PPPoE payload must hold the 2-byte PPP protocol field and fit in the frame
+	if hdr.Length < 2 || int(hdr.Length) > len(data)-6 {
 		return
 	}
 
